@@ -137,6 +137,30 @@ def held(impl, kwargs):
     return True
 
 
+def concrete(d):
+    """Realise every argument up-front (they end up formatted into bytes/strings anyway); the decision tree
+    still enumerates every value of the stated bound."""
+    try:
+        from crosshair import deep_realize
+    except Exception:  # pragma: no cover
+        deep_realize = lambda v: v  # noqa: E731
+    return {k: deep_realize(v) for k, v in d.items() if not callable(v) and not k.startswith("_")}
+
+
+def pick(i, lo, hi):
+    """
+    Concretise a symbolic selector lo <= i < hi by binary search on comparisons: the decision tree gets
+    exactly one leaf per value (CrossHair's own realisation of an int revisits small values several times).
+    """
+    while hi - lo > 1:
+        mid = (lo + hi) // 2
+        if i >= mid:
+            lo = mid
+        else:
+            hi = mid
+    return lo
+
+
 def run(coro):
     """Trampoline for coroutines that never really suspend."""
     try:
